@@ -1,9 +1,10 @@
 #![allow(unexpected_cfgs)]
 // The lock types used by the database. With `--cfg jammdb_verif` (verification builds only)
-// they come from the shuttle scheduler so that thread interleavings can be explored; in every
-// normal build they are the standard library's.
+// they come from the simulator's shim crate (shuttle's mutex, and a reader-writer lock on
+// shuttle primitives whose priority policy the simulator chooses) so that thread interleavings
+// can be explored; in every normal build they are the standard library's.
 #[cfg(not(jammdb_verif))]
 pub(crate) use std::sync::{Mutex, MutexGuard, RwLock, RwLockReadGuard};
 
 #[cfg(jammdb_verif)]
-pub(crate) use shuttle::sync::{Mutex, MutexGuard, RwLock, RwLockReadGuard};
+pub(crate) use jsim_shim::{Mutex, MutexGuard, RwLock, RwLockReadGuard};
